@@ -10,7 +10,7 @@ RULES = {
     'H6': tables.rule_H6,
     'F1': config.rule_F1, 'F2': config.rule_F2, 'F3': config.rule_F3, 'F4': config.rule_F4, 'F5': config.rule_F5,
     'G1': config.rule_G1, 'N4': config.rule_N4,
-    'J1': state.rule_J1, 'J2': state.rule_J2, 'M': state.rule_M, 'D1': state.rule_D1, 'D3': state.rule_D3,
+    'J1': state.rule_J1, 'MEMO': state.rule_MEMO, 'J2': state.rule_J2, 'M': state.rule_M, 'D1': state.rule_D1, 'D3': state.rule_D3,
     'HASH': state.rule_HASH, 'N3': state.rule_N3,
     'A1': ownership.rule_A1, 'A3': ownership.rule_A3, 'A4': ownership.rule_A4, 'A9': ownership.rule_A9,
     'A10': ownership.rule_A10, 'A11': ownership.rule_A11,
@@ -55,7 +55,7 @@ def _p(pid, rules, decided, declined, explanation, level='other', floors=None, a
                       floors=floors or {}, assumptions=list(assumptions) + COMMON_ASSUMPTIONS, exhaustive=exhaustive)
 
 
-_p('C18', ['H1', 'H3', 'E10', 'H4', 'F2'],
+_p('C18', ['H1', 'H3', 'E10', 'H4', 'F2', 'MEMO'],
    decided=["every struct-style code and endianness prefix maps to the dtype struct defines (regex classes = "
             "replacement tables = size table = struct.calcsize; prefix branches exhaustive)",
             "native-endian aliases point at the le/be dtype in the matching sys.byteorder branch (both branches, "
@@ -84,7 +84,7 @@ _p('C17', ['H6', 'DELEG', 'L', 'A7', 'E5', 'OPT', 'J1', 'WIN'],
    explanation="Constant folding of the chunk-size expression that reaches Bits.cut in Bits.tofile; delegation and guard "
                "dominance checks; ingest feature matrix.")
 
-_p('C09', ['F1', 'F2', 'F3', 'F4', 'F5', 'G1', 'N4', 'A1', 'A4'],
+_p('C09', ['F1', 'F2', 'F3', 'F4', 'F5', 'G1', 'N4', 'A1', 'A4', 'MEMO'],
    decided=["results never depend on cache hits, misses or evictions nor on option values in force earlier: every "
             "lru_cache'd function reaches no option read or mode-switched slot that is not part of its key",
             "nor on what was later done to previously returned objects: cached lists/Dtypes are never mutated",
@@ -168,7 +168,7 @@ _p('C06', ['C', 'POSW', 'B1', 'POST', 'RB', 'NOMOVE', 'E7', 'D2', 'J1', 'J2', 'O
                "name, post-condition table keyed by method.",
    floors={'POSW': 25, 'B1': 18})
 
-_p('C07', ['E1', 'E2', 'E3', 'E11', 'OPT'],
+_p('C07', ['E1', 'E2', 'E3', 'E11', 'OPT', 'MEMO'],
    decided=["an empty pattern raises ValueError in find, rfind, findall, split, replace (and `in`/readto by delegation)",
             "an invalid [start, end) raises: every public function with start/end validates them through _validate_slice "
             "(or forwards them unchanged to one that does) before any other use",
@@ -179,7 +179,7 @@ _p('C07', ['E1', 'E2', 'E3', 'E11', 'OPT'],
    explanation="Sibling guard agreement over the search entry points; forward-or-validate dataflow of start/end; taint of "
                "the raw bytealigned parameter to the store-level search sinks.")
 
-_p('C08', ['J1', 'J2', 'L', 'A7', 'A8', 'A6', 'A3', 'A1', 'A11', 'ITER1'],
+_p('C08', ['J1', 'J2', 'L', 'A7', 'A8', 'A6', 'A3', 'A1', 'A11', 'ITER1', 'MEMO'],
    decided=["the complete observable state is the bit content: per-object fields are closed (__slots__) and _filename, "
             "immutable, modified_length, _pos are read only by the code whose role needs them; content operations "
             "reach no read of _pos/_filename",
@@ -246,7 +246,7 @@ _p('C03', ['B2', 'WB', 'N1', 'B1', 'E2', 'E11', 'OPT', 'G5', 'A3', 'F2', 'RNG', 
                "for write loops from the validated window, dominating-guard facts for helper asserts.",
    floors={'B2': 40})
 
-_p('C14', ['I', 'IDX', 'TY1', 'XDT', 'B3', 'B2', 'N2a', 'A9', 'N4'],
+_p('C14', ['I', 'IDX', 'TY1', 'XDT', 'B3', 'B2', 'N2a', 'A9', 'N4', 'MEMO'],
    decided=["item i occupies bits [i*w, (i+1)*w) with w in bits for every fixed-length dtype incl. byte-multiplier ones: "
             "bit counts (len of data, Dtype.bitlength, itemsize), unit counts (Dtype.length) and item counts are never "
             "mixed in array_.py (three-sorted dimension analysis of every arithmetic, comparison, slice bound, position)",
